@@ -161,7 +161,18 @@ func (c *Client) Start(ctx context.Context) {
 
 func (c *Client) handleIncomingDelegation(ctx context.Context, link *protocol.Link, delegation net.Conn) error {
 	hostname := link.GetHostname()
+
+	// the route and the proxy built from it have to be looked up as one step with respect
+	// to a configuration change: RebuildTunnels/reload drop the outdated proxy first and
+	// rebuild the router afterwards, and a proxy created from the old route in between
+	// would stay cached and keep serving the old target.
+	var proxy *httpProxy
+	c.configMu.RLock()
 	u, ok := c.Configuration.router.Load(hostname)
+	if ok && link.GetAlpn() == protocol.Link_HTTP {
+		proxy = c.getHTTPProxy(ctx, hostname, u)
+	}
+	c.configMu.RUnlock()
 	if !ok {
 		c.Logger.Error("Unknown hostname in connection", zap.String("hostname", hostname))
 		delegation.Close()
@@ -175,7 +186,7 @@ func (c *Client) handleIncomingDelegation(ctx context.Context, link *protocol.Li
 
 	switch link.GetAlpn() {
 	case protocol.Link_HTTP:
-		c.getHTTPProxy(ctx, hostname, u).acceptor.Handle(delegation)
+		proxy.acceptor.Handle(delegation)
 
 	case protocol.Link_TCP:
 		c.forwardStream(ctx, hostname, delegation, u)
